@@ -355,3 +355,89 @@ func replayFile(t *testing.T, w *World, sc Scenario, path, prop string) *ReplayV
 	v.SameEvents = v.EventDigest == rep.EventDigest
 	return v
 }
+
+// TestRaceSide is the -race side mode of hashsched: the same generated shapes
+// and faults, yield hooks NOT installed, real Go scheduler, GOMAXPROCS 1/2/4/16,
+// SIM_REPS repetitions per shape. It is not a simulation (the interleaving is
+// not controlled) and says so in the evidence; a race report makes the binary
+// exit with status 66 (GORACE halt_on_error) which the driver reports for C18.
+func TestRaceSide(t *testing.T) {
+	if os.Getenv("SIM_RACE") == "" {
+		t.Skip("run through /verif/check")
+	}
+	prop := os.Getenv("SIM_PROP")
+	seed := envU64("SIM_SEED", 1)
+	from, to, stride := envInt("SIM_FROM", 0), envInt("SIM_TO", 100), envInt("SIM_STRIDE", 1)
+	reps := envInt("SIM_REPS", 8)
+	scratch := os.Getenv("SIM_SCRATCH")
+	out := &WorkerOut{Scenario: "hashsched-race", Prop: prop, NumCPU: runtime.NumCPU(), Counters: map[string]int{}}
+	start := time.Now()
+	w := NewWorld(t, scratch)
+	w.NumCPU = runtime.NumCPU()
+	defer w.Close()
+	writeOut := func() {
+		out.WallS = time.Since(start).Seconds()
+		b, _ := json.Marshal(out)
+		os.WriteFile(os.Getenv("SIM_OUT"), b, 0o644)
+	}
+	installRaceHooks()
+	var cases []int
+	if rp := os.Getenv("SIM_REPLAY"); rp != "" {
+		cases = []int{-1}
+	} else {
+		for idx := from; idx < to; idx += stride {
+			cases = append(cases, idx)
+		}
+	}
+	distinct := map[string]struct{}{}
+	for _, idx := range cases {
+		var c *HashCase
+		if idx < 0 {
+			b, err := os.ReadFile(os.Getenv("SIM_REPLAY"))
+			if err != nil {
+				t.Fatal(err)
+			}
+			var rep Report
+			json.Unmarshal(b, &rep)
+			cc, _ := hashsched{}.Decode(rep.Case)
+			c = cc.(*HashCase)
+		} else {
+			r := NewRng(seed, "hashsched-race/"+prop, uint64(idx))
+			c = hashsched{}.Gen(r, GenConfig{Tier: "quick", Prop: "C18", Idx: uint64(idx + 1000), NumCPU: w.NumCPU}).(*HashCase)
+			c.Big = 0
+			if idx%5 == 4 && len(c.List) > 0 {
+				// many unreadable entries at once: every k-th listed file is missing
+				k := 1 + idx%3
+				var disk []HEntry
+				for i, e := range c.Disk {
+					if e.Kind == "file" && i%k == 0 {
+						continue
+					}
+					disk = append(disk, e)
+				}
+				c.Disk = disk
+			}
+			if len(c.Variants) == 0 {
+				c.Variants = []HVariant{{Order: r.Perm(len(c.List))}, {Order: r.Perm(len(c.List))}}
+			}
+		}
+		cj, _ := json.Marshal(c)
+		os.WriteFile("race_case.json", cj, 0o644) // for attribution if the race detector halts the process
+		w.Reset()
+		res := hashsched{}.RaceExec(w, c, prop, reps)
+		out.Runs++
+		out.Ops += res.Ops
+		for _, d := range res.Distinct {
+			distinct[d] = struct{}{}
+		}
+		if v := res.first(prop); v != nil {
+			out.Violation = &Report{Property: v.Property, Scenario: "hashsched-race", Predicate: v.Predicate, Message: v.Message, Signature: v.Signature,
+				Seed: seed, Idx: uint64(max(idx, 0)), Tier: "race-side-mode", NumCPU: w.NumCPU, Case: cj, Events: res.Events}
+			break
+		}
+	}
+	for d := range distinct {
+		out.Distinct = append(out.Distinct, d)
+	}
+	writeOut()
+}
